@@ -2,6 +2,7 @@ package main
 
 import (
 	"fmt"
+	"math"
 	"go/token"
 	"go/types"
 	"strings"
@@ -369,4 +370,120 @@ func runC08Nested(c *Ctx) {
 	if n < 2 {
 		c.Errorf("only %d re-entrant decoder routines found, expected >= 2", n)
 	}
+}
+
+func init() {
+	register(&Rule{
+		ID:    "C14.shoelace",
+		Props: []string{"C14", "C17", "C01"},
+		Doc:   "areas are accumulated from differences: in signedAreaOfLinearRing (area, orientation, centroid weights) and unboundedFace, every product added to the running area has both factors built from coordinate differences (to the previous vertex or to a reference vertex) — a factor that is a sum of absolute coordinates makes the terms as large as the coordinates squared, and the area of a small ring far from the origin is lost to rounding (Area 0, wrong winding sign, NaN centroid)",
+		Floor: 1,
+		Run:   runC14Shoelace,
+	})
+}
+
+func runC14Shoelace(c *Ctx) {
+	f := c.P.Func("geom.signedAreaOfLinearRing")
+	if f == nil {
+		c.Errorf("anchor geom.signedAreaOfLinearRing does not resolve")
+		return
+	}
+	n := 0
+	eachInstr(f, func(in ssa.Instruction) {
+		mul, ok := in.(*ssa.BinOp)
+		if !ok || mul.Op != token.MUL || !isFloat(mul.Type()) {
+			return
+		}
+		// the product is added to a loop-carried accumulator
+		acc := false
+		for _, r := range *mul.Referrers() {
+			if add, ok := r.(*ssa.BinOp); ok && add.Op == token.ADD {
+				if _, isPhi := add.X.(*ssa.Phi); isPhi {
+					acc = true
+				}
+				if _, isPhi := add.Y.(*ssa.Phi); isPhi {
+					acc = true
+				}
+			}
+		}
+		if !acc {
+			return
+		}
+		n++
+		bad := ""
+		for _, fac := range []ssa.Value{mul.X, mul.Y} {
+			hasSub := operandTreeAny(fac, func(v ssa.Value) bool {
+				bo, ok := v.(*ssa.BinOp)
+				return ok && bo.Op == token.SUB
+			})
+			absSum := false
+			if add, ok := fac.(*ssa.BinOp); ok && add.Op == token.ADD {
+				isCoord := func(v ssa.Value) bool {
+					switch v.(type) {
+					case *ssa.Field, *ssa.UnOp, *ssa.Phi, *ssa.Extract:
+						return true
+					}
+					return false
+				}
+				if isCoord(add.X) && isCoord(add.Y) {
+					absSum = true
+				}
+			}
+			if !hasSub || absSum {
+				fs, _ := accessPath(fac)
+				bad = "the factor " + trunc(fs) + " is built from absolute coordinates"
+			}
+		}
+		c.Check(bad == "", mul.Pos(), FuncName(f), "shoelace term", "both factors are coordinate differences", bad+": for a ring that is small compared to the magnitude of its coordinates the area is lost to rounding")
+	})
+	if n < 1 {
+		c.Errorf("no accumulated product found in signedAreaOfLinearRing")
+	}
+}
+
+func init() {
+	register(&Rule{
+		ID:    "C09.accuracy",
+		Props: []string{"C09"},
+		Doc:   "point-to-segment distance is accurate to a few ulps on the integer domain: distBetweenXYAndLine interpreted on ill-conditioned integer configurations (a point very close to a long segment, |c| <= 2^10) returns |ab x ap| / |ab| (cross product exact in float64, one square root, one division) within 4 ulps — constructing the rounded foot point and measuring the distance to it loses about six significant digits there",
+		Floor: 1,
+		Run:   runC09Accuracy,
+	})
+}
+
+func runC09Accuracy(c *Ctx) {
+	f := c.P.Func("geom.distBetweenXYAndLine")
+	if f == nil {
+		c.Errorf("anchor geom.distBetweenXYAndLine does not resolve")
+		return
+	}
+	inl := inlineAllGeom("geom.(XY).Sub", "geom.(XY).Add", "geom.(XY).Dot", "geom.(XY).Cross", "geom.(XY).Length", "geom.(XY).Scale", "geom.(XY).lengthSq", "geom.distBetweenXYs", "geom.distBetweenXYAndLine")
+	problem, undec := "", ""
+	cases := [][6]float64{
+		{-546, -743, 991, 875, -565, -763},
+		{3, 2, -1000, -999, 1000, 1001},
+		{511, 512, -1024, -1023, 1023, 1024},
+		{0, 1, -1024, 0, 1024, 1},
+	}
+	for _, k := range cases {
+		m := &Model{Num: map[string]float64{"$0.X": k[0], "$0.Y": k[1], "$1.a.X": k[2], "$1.a.Y": k[3], "$1.b.X": k[4], "$1.b.Y": k[5]}, Bool: map[string]bool{}, Missing: map[string]bool{}}
+		res, err := k4run(c.P, f, m, inl)
+		if err != nil || len(res) != 1 || res[0].kind != 2 {
+			undec = fmt.Sprintf("%v %v %s", err, res, missingList(m))
+			break
+		}
+		abx, aby := k[4]-k[2], k[5]-k[3]
+		apx, apy := k[0]-k[2], k[1]-k[3]
+		cross := abx*apy - aby*apx // exact: |values| < 2^24
+		if cross < 0 {
+			cross = -cross
+		}
+		want := cross / math.Sqrt(abx*abx+aby*aby)
+		ulp := math.Nextafter(want, math.Inf(1)) - want
+		if d := math.Abs(res[0].f - want); d > 4*ulp {
+			problem = fmt.Sprintf("distance from (%v %v) to the segment (%v %v)-(%v %v) is computed as %.17g, the correctly rounded value is %.17g: off by %.0f ulps", k[0], k[1], k[2], k[3], k[4], k[5], res[0].f, want, d/ulp)
+			break
+		}
+	}
+	reportK4(c, f, "accuracy on ill-conditioned integer inputs", undec, problem, fmt.Sprintf("within 4 ulps of |ab x ap|/|ab| on %d configurations", len(cases)))
 }
